@@ -45,9 +45,19 @@ module Nat :
 
 val nth_error : 'a1 list -> nat -> 'a1 option
 
+val last : 'a1 list -> 'a1 -> 'a1
+
+val rev : 'a1 list -> 'a1 list
+
+val concat : 'a1 list list -> 'a1 list
+
 val map : ('a1 -> 'a2) -> 'a1 list -> 'a2 list
 
 val fold_left : ('a1 -> 'a2 -> 'a1) -> 'a2 list -> 'a1 -> 'a1
+
+val fold_right : ('a2 -> 'a1 -> 'a1) -> 'a1 -> 'a2 list -> 'a1
+
+val existsb : ('a1 -> bool) -> 'a1 list -> bool
 
 val forallb : ('a1 -> bool) -> 'a1 list -> bool
 
@@ -216,6 +226,8 @@ type 'a pres = (perr, 'a) res
 type 'a wres = (werr, 'a) res
 
 type bytes = n list
+
+val zeros : nat -> bytes
 
 val be16 : n -> bytes
 
@@ -728,3 +740,115 @@ val run_build : member -> (nat * n) list -> kv list
 val run_build_chunk : chunk_cfg -> (nat * n) list -> kv list
 
 val run_build_item : item_cfg -> (nat * n) list -> kv list
+
+val rfc_header : n -> n -> n -> nat -> bytes
+
+val rfc_trailer : n -> bytes
+
+val rfc_rb : rb_cfg -> bytes
+
+val rfc_sr : sr_cfg -> bytes
+
+val rfc_rr : rr_cfg -> bytes
+
+val rfc_app : app_cfg -> bytes
+
+val rfc_reason : bytes -> bytes
+
+val rfc_bye : bye_cfg -> bytes
+
+val rfc_item : item_cfg -> bytes
+
+val rfc_chunk : chunk_cfg -> bytes
+
+val rfc_sdes : sdes_cfg -> bytes
+
+val nack_take : n -> n list -> n * n list
+
+val rfc_nack_words : nat -> n list -> (n * n) list
+
+val insert_sorted : n -> n list -> n list
+
+val rfc_set : n list -> n list
+
+val rfc_fir_lookup : (n * n) list -> n -> n option
+
+val rfc_nodup_keys : n list -> (n * n) list -> n list
+
+val rfc_fir_map : (n * n) list -> (n * n) list
+
+val rfc_sli_word : ((n * n) * n) -> bytes
+
+val rfc_rpsi : n -> bytes -> n -> bytes
+
+val rfc_fci : fci_cfg -> bytes
+
+val rfc_fb : fb_cfg -> bytes
+
+val rfc_raw : n -> n -> n -> bytes -> bytes
+
+val rfc_image : member -> bytes
+
+val well_framed : nat -> n -> bytes -> bool
+
+val raw_framed : bytes -> bool
+
+val okO : obs -> obs
+
+val okN : n -> obs
+
+val okI : nat -> obs
+
+val okPad : n -> obs
+
+val exp_hdr : n -> n -> nat -> obs
+
+val exp_rb : rb_cfg -> obs
+
+val exp_sr : sr_cfg -> kv list
+
+val exp_rr : rr_cfg -> kv list
+
+val exp_app : app_cfg -> kv list
+
+val exp_bye : bye_cfg -> kv list
+
+val item_size : item_cfg -> nat
+
+val exp_item : nat -> item_cfg -> obs
+
+val exp_items : nat -> item_cfg list -> obs list
+
+val chunk_size : chunk_cfg -> nat
+
+val exp_chunk : nat -> chunk_cfg -> obs
+
+val exp_chunks : nat -> chunk_cfg list -> obs list
+
+val exp_sdes : sdes_cfg -> kv list
+
+val errWI : obs
+
+val exp_fci_entries : fci_cfg -> obs
+
+val exp_fcis : fb_cfg -> obs
+
+val exp_fb : fb_cfg -> kv list
+
+val exp_raw : n -> n -> nat -> kv list
+
+val expected_packet : member -> obs
+
+val m_has_empty_fci : member -> bool
+
+val m_oversize : member -> bool
+
+val m_classes : member -> obs
+
+val spec_build : member -> kv list
+
+val entry_framing : entry -> bytes -> (nat * n) option
+
+val obs_bool : bool -> obs
+
+val spec_parse : entry -> bytes -> kv list
